@@ -90,6 +90,9 @@ def run_shard(spec):
         if w.get("lane") == "checkpoint-header":
             checkpoint_header_lane(st, random.Random(1), 20)
             return st.result()
+        if w.get("lane") == "two-threads":
+            two_thread_lane(st, random.Random(1), 12)
+            return st.result()
         if w.get("lane") == "node":         # the route through the store is re-run (the witness lists are for the reader)
             node_lane(st, random.Random(1), 25)
             return st.result()
@@ -138,7 +141,139 @@ def run_shard(spec):
     consensus_lane(st, rng, 150 if tier == "quick" else 4000)
     node_lane(st, rng, 25 if tier == "quick" else 400)
     checkpoint_header_lane(st, rng, 20 if tier == "quick" else 300)
+    two_thread_lane(st, rng, 8 if tier == "quick" else 120)
     return st.result()
+
+
+def two_thread_lane(st, rng, n):
+    """the node computes commitments in two threads (networking validates received blocks while the miner builds summaries).
+    Thread A computes the commitment (or tree and proof) of an EDITED list; at one statement boundary or function entry inside
+    the commitment code -- every one of them in turn -- it is pre-empted and thread B computes commitment, tree and a proof of
+    the BASE list from start to finish; then A goes on.  Both must get what they get alone (the reference fold's value)"""
+    import sys
+    import threading
+    import types
+    import skepticoin.hash as hm
+    mt = st.mt
+    mon = sys.monitoring
+    tool = 3
+    if mon.get_tool(tool) is not None:
+        st.c_extra["two_thread_lane_tool_slot_taken"] = 1
+        return
+    codes = []
+    for mod in (mt, hm):
+        for obj in vars(mod).values():
+            if isinstance(obj, types.FunctionType) and obj.__module__ == mod.__name__:
+                codes.append(obj.__code__)
+            elif isinstance(obj, type) and obj.__module__ == mod.__name__:
+                for f in vars(obj).values():
+                    if isinstance(f, types.FunctionType):
+                        codes.append(f.__code__)
+    ctl = {"a": None, "k": 0, "count": 0, "b": None, "inside": False, "b_out": None}
+
+    def maybe_switch():
+        if ctl["a"] != threading.get_ident() or ctl["inside"]:
+            return
+        ctl["count"] += 1
+        if ctl["count"] == ctl["k"]:
+            ctl["inside"] = True
+            t = threading.Thread(target=ctl["b"])
+            t.start()
+            t.join()
+            ctl["inside"] = False
+
+    def on_line(code, line):
+        maybe_switch()
+
+    def on_start(code, offset):
+        maybe_switch()
+    mon.use_tool_id(tool, "skv-c17-switch")
+    mon.register_callback(tool, mon.events.LINE, on_line)
+    mon.register_callback(tool, mon.events.PY_START, on_start)
+    for co in codes:
+        mon.set_local_events(tool, co, mon.events.LINE | mon.events.PY_START)
+    try:
+        for case in range(n):
+            ln = rng.choice([2, 3, 4, 5, 6, 7, 8, 9, 16, 17])
+            L = [fresh(rng) for _ in range(ln)]
+            all_edits = [(name, M) for name, M in edits(L, rng) if M != L]
+            name, M = all_edits[case % len(all_edits)] if case % 3 else [e for e in all_edits if e[0] == "duplicate-last"][0]
+            want_a, want_b = ref.merkle_root(M), ref.merkle_root(L)
+            pos_a, pos_b = rng.randrange(len(M)), rng.randrange(len(L))
+            what = case % 2         # 0: A computes the commitment; 1: A builds tree and proof
+
+            def work_a(out):
+                if what == 0:
+                    out["root"] = mt.get_merkle_root(list(M))
+                else:
+                    tree = mt.get_merkle_tree(list(M))
+                    out["root"] = tree.hash()
+                    out["proof"] = mt.get_proof(tree, pos_a)
+
+            def work_b():
+                out = {}
+                out["root"] = mt.get_merkle_root(list(L))
+                tree = mt.get_merkle_tree(list(L))
+                out["tree"] = tree.hash()
+                out["proof"] = mt.get_proof(tree, pos_b)
+                ctl["b_out"] = out
+
+            def run_a(k):
+                out = {}
+
+                def body():
+                    ctl["a"] = threading.get_ident()
+                    try:
+                        work_a(out)
+                    except Exception as e:
+                        out["raised"] = repr(e)
+                    finally:
+                        ctl["a"] = None
+                ctl.update(k=k, count=0, b=work_b, b_out=None)
+                t = threading.Thread(target=body)
+                t.start()
+                t.join()
+                return out, ctl["count"], ctl["b_out"]
+            _out, total, _b = run_a(0)
+            st.c_extra["two_thread_cases"] = st.c_extra.get("two_thread_cases", 0) + 1
+            points = list(range(1, total + 1))
+            if len(points) > 120:
+                points = sorted(rng.sample(points, 120))
+            for k in points:
+                out, _cnt, b = run_a(k)
+                st.c_extra["two_thread_switch_points"] = st.c_extra.get("two_thread_switch_points", 0) + 1
+                st.pairs += 1
+                w = {"list": [x.hex() for x in L], "edited": [x.hex() for x in M], "edit": name, "lane": "two-threads",
+                     "switch_at_event": k, "of_events": total, "thread_a_computes": ["commitment", "tree and proof"][what]}
+                if b is None:
+                    st.c_extra["two_thread_switch_not_taken"] = st.c_extra.get("two_thread_switch_not_taken", 0) + 1
+                    continue
+                if "raised" in out:
+                    st.v("commitment-code-raises-when-two-threads-use-it", "thread A raised %s (another thread computed a "
+                         "commitment in between)" % out["raised"][:120], w)
+                    continue
+                if out["root"] != want_a:
+                    st.v("commitment-depends-on-another-threads-computation", "thread A, pre-empted at event %d of %d while another "
+                         "thread computed the commitment of the base list, got %s for the edited list (%s)" % (
+                             k, total, "the BASE list's commitment" if out["root"] == want_b else "a value that is not its "
+                             "list's commitment", name), w)
+                if b["root"] != want_b or b["tree"] != want_b:
+                    st.v("commitment-depends-on-another-threads-computation", "thread B (running while A was held at event %d of %d) "
+                         "got a value that is not its list's commitment" % (k, total), w)
+                for who, o, lst, pos in (("A", out, M, pos_a), ("B", b, L, pos_b)):
+                    if "proof" in o:
+                        st.proofs += 1
+                        pr = o["proof"]
+                        node, sh = pr, shape(len(lst))
+                        while sh[0] == "node" and len(node.children) == 2:
+                            node, sh = (node.children[1], sh[2]) if pos >= first_index(sh[2]) else (node.children[0], sh[1])
+                        if fold(pr, st.fold_nodes) != ref.merkle_root(lst) or node.children or node.value != lst[pos]:
+                            st.v("proof-depends-on-another-threads-computation", "thread %s's proof for position %d does not "
+                                 "contain the entry / reproduce the commitment when two threads compute at once" % (who, pos), w)
+    finally:
+        for co in codes:
+            mon.set_local_events(tool, co, 0)
+        mon.free_tool_id(tool)
 
 
 def consensus_lane(st, rng, n):
@@ -430,6 +565,7 @@ def finalize(m, tier):
                    ("duplicate-last pairs", c.get("pairs_by_edit", {}).get("duplicate-last", 0), 100),
                    ("consensus_commitments", c.get("consensus_commitments", 0), 500),
                    ("held_blocks_checked", c.get("held_blocks_checked", 0), 500),
-                   ("checkpoint_header_edits", c.get("checkpoint_header_edits", 0), 500), ("held_block_proofs", c.get("held_block_proofs", 0), 2000)],
+                   ("checkpoint_header_edits", c.get("checkpoint_header_edits", 0), 500), ("held_block_proofs", c.get("held_block_proofs", 0), 2000),
+                   ("two_thread_switch_points", c.get("two_thread_switch_points", 0), 2000)],
         "extra": {"exhaustive_bound": "all single edits of the listed kinds for every base list of length 1..10"},
     }
